@@ -369,6 +369,34 @@ func (d *driver) pickOp() (model.Op, bool) {
 			return o, true
 		}
 	}
+	searchOdds := 16
+	if d.big || d.bigObj {
+		searchOdds = 7
+	}
+	if d.rng.Intn(searchOdds) == 0 {
+		// search: IndexOf / Contains / KeyOf for a value the container holds (often more than once) or a random one
+		all := append(append([]int{}, lists...), objs...)
+		r := all[d.rng.Intn(len(all))]
+		var present []model.Val
+		for _, v := range d.cur[r-1].E {
+			if v.K != "absent" && v.K != "alien" {
+				present = append(present, v)
+			}
+		}
+		v := d.scalar()
+		if len(present) > 0 && d.rng.Intn(4) > 0 {
+			v = present[d.rng.Intn(len(present))]
+		}
+		name := "Contains"
+		if d.cur[r-1].T == "L" && d.rng.Intn(2) == 0 {
+			name = "IndexOf"
+		} else if d.cur[r-1].T == "O" && d.rng.Intn(2) == 0 && d.real.Derived == 0 {
+			name = "KeyOf"
+		}
+		o := mk(name, r)
+		o.V = v
+		return o, true
+	}
 	if d.rng.Intn(12) == 0 {
 		all := append(append([]int{}, lists...), objs...)
 		r := all[d.rng.Intn(len(all))]
@@ -649,7 +677,21 @@ func (d *driver) assign(o model.Op, panicked bool, ret any) model.Val {
 	case "NewList", "NewListOf", "NewObject", "SubList", "Concat", "FilterAll", "MapId", "Keys", "Values", "Pluck", "MapIdO":
 		d.bindNew(ret)
 	}
-	if b, ok := ret.(bool); ok && (o.Op == "Equals" || o.Op == "NativeCheck") {
+	switch o.Op {
+	case "IndexOf":
+		if i, ok := ret.(int); ok {
+			return model.Val{K: "int", V: i}
+		}
+	case "KeyOf":
+		if k, ok := ret.(string); ok {
+			if v, ok := d.real.T.Abs(k); ok {
+				return v
+			}
+		}
+		d.alien++
+		return model.Val{K: "alien"}
+	}
+	if b, ok := ret.(bool); ok && (o.Op == "Equals" || o.Op == "NativeCheck" || o.Op == "Contains") {
 		if b {
 			return model.Val{K: "bool", V: 1}
 		}
@@ -783,6 +825,10 @@ func cmdDrive(args []string) int {
 		if *bigObj {
 			t = conc.NewGen(*nkeys)
 			gen = 1
+		} else if p%3 == 2 {
+			// every third program runs on look-alike strings (long common prefixes, case pairs, ...)
+			t = conc.New("long", *seed+int64(p), *nkeys)
+			gen = 2
 		}
 		d := &driver{rng: rng, real: heapx.New(t, nil, *nkeys, *derived), nkeys: *nkeys, next: 1, big: big, bigObj: *bigObj, maxList: 40, w: w, sw: sw, spine: map[int][3]int{}, arrIDs: map[uintptr]int{}}
 		if big {
@@ -1011,6 +1057,8 @@ func cmdRedrive(args []string) int {
 			tbl := conc.NewTF(rec.CSeed, rec.NKeys)
 			if rec.Gen == 1 {
 				tbl = conc.NewGen(rec.NKeys)
+			} else if rec.Gen == 2 {
+				tbl = conc.New("long", rec.CSeed, rec.NKeys)
 			}
 			d = &driver{rng: rand.New(rand.NewSource(1)), real: heapx.New(tbl, nil, rec.NKeys, rec.Derived), nkeys: rec.NKeys, next: 1, maxList: 1 << 30, w: w}
 			fmt.Fprintf(w, "{\"t\":\"reset\",\"nkeys\":%d,\"derived\":%d,\"cseed\":%d,\"gen\":%d}\n", rec.NKeys, rec.Derived, rec.CSeed, rec.Gen)
